@@ -49,14 +49,30 @@ def gen_case(rng, k):
         aliases = ["wave"]
     else:
         rk = rng.random()
-        if rk < 0.75:
+        if rk < 0.55:
             rowv = gen.make_cat(rng, "rowv", numeric=rng.choice(["all", "partial", None]))
+        elif rk < 0.75:
+            # categorical-date ROWS as well (after seeded change C20-7): a difference with several terms on a
+            # categorical-date rows dimension is NaN in the column proportions, so its smoothed row (and the
+            # unchanged row of an invalid window) is NaN too - not the difference of the smoothed base rows
+            rowv = gen.make_cat(rng, "rowv", n_valid=rng.choice([3, 4, 5]), date=True,
+                                numeric=rng.choice(["all", "partial", None]))
         else:
             rowv = gen.make_mr(rng, "rowv")
         variables = [rowv, colv]
         aliases = ["rowv", "wave"]
-        if rowv.kind == "cat" and rng.random() < 0.6:
+        if rowv.kind in ("cat", "cat_date") and rng.random() < 0.6:
             rowv.view_insertions = gen.random_insertions(rng, rowv)
+            if rowv.kind == "cat_date" and rng.random() < 0.6:
+                ids = gen.valid_cat_ids(rowv)
+                if len(ids) >= 3:
+                    pos = rng.sample(ids, 2)
+                    neg = [rng.choice([i for i in ids if i not in pos])]
+                    if rng.random() < 0.5:
+                        pos, neg = neg, pos
+                    rowv.view_insertions.append({"function": "subtotal", "name": "rowv_multi_term_diff",
+                                                 "anchor": rng.choice(["top", "bottom", ids[0]]),
+                                                 "kwargs": {"positive": pos, "negative": neg}, "args": pos})
         if colv.kind.startswith("cat") and rng.random() < 0.3:
             colv.view_insertions = gen.random_insertions(rng, colv, max_n=3)
     with_mean = strand or rng.random() < 0.5
